@@ -480,13 +480,16 @@ def _apply(E, cfg):
             b = _stub_boundary(E, name, fs[j], "dofs")
             b.value = 0.25 * (k + 1) if vk_ == "float" else E.real("val_" + name)
             valfun[name] = (lambda b: lambda x: E.val(b.value))(b)
-        elif vk_ in ("array", "array2d"):
-            # one value per prescribed dof, listed in the order of b.dof
-            kept = list(range(d)) if vk_ == "array2d" else None
-            b = _stub_boundary(E, name, fs[j], "rows" if vk_ == "array2d" else "dofs", kept=kept)
+        elif vk_ in ("array", "array2d", "array2dF"):
+            # one value per prescribed dof, listed in the order of b.dof (array2dF: the (points, components) table is
+            # stored column-major, e.g. (H @ X.T).T -- the same values per (point, component))
+            kept = list(range(d)) if vk_ != "array" else None
+            b = _stub_boundary(E, name, fs[j], "rows" if vk_ != "array" else "dofs", kept=kept)
             L = E.length(b.dof)
             V = E.reals("V_" + name, (L,))
             b.value = V if vk_ == "array" else V.reshape(E.length(b.points), d)
+            if vk_ == "array2dF":
+                b.value = E.fortran(b.value)
             valfun[name] = (lambda b, V: lambda x: E.at(V, E.rank(b.dof, x)))(b, V)
         else:  # broadcast: one value per kept component, the same for every selected point
             kept = {"bcast": list(range(d)), "bcast-skip": [i for i in range(d) if i != 1] if d > 1 else [0], "bcast-row": list(range(d))}[vk_]
@@ -543,6 +546,8 @@ APPLY = [
     dict(dims=(3,), bounds=((0, "scalar"), (0, "scalar"), (0, "float"))),  # overlapping: the last one wins
     dict(dims=(3,), bounds=((0, "array"), (0, "scalar"))),
     dict(dims=(3,), bounds=((0, "scalar"), (0, "array2d"))),
+    dict(dims=(3,), bounds=((0, "array2dF"),)),
+    dict(dims=(2, 1), bounds=((0, "array2dF"), (1, "float"))),
     dict(dims=(3,), bounds=((0, "bcast"), (0, "bcast-skip"))),
     dict(dims=(2,), bounds=((0, "bcast-row"), (0, "array"))),
     dict(dims=(2, 1), bounds=((0, "scalar"), (1, "scalar"))),
